@@ -550,8 +550,10 @@ def main(argv):
             known_status.append(dict(signature=k.get('signature'), reproduces=None))
     all_results, all_viol, summaries, capped = {}, {}, [], False
     per_binary = []
-    for binary in cfg['binaries']:
+    for bi, binary in enumerate(cfg['binaries']):
         nruns = args.runs or tcfg['runs']
+        if not args.runs and 'runs_per_binary' in tcfg:
+            nruns = tcfg['runs_per_binary'][bi]
         nworkers = args.workers or tcfg.get('workers', 16)
         pool = Pool(cfg, tier, seed, nruns, nworkers, tcfg.get('chunk', 20), tcfg.get('wall_cap', 900), binary)
         if args.census:
@@ -655,7 +657,7 @@ def main(argv):
             'property_id': prop,
             'tier': tier,
             'seed': seed,
-            'level': 'exploration',
+            'level': cfg.get('level', 'exploration'),
             'coverage': {
                 'evaluations': nruns_done,
                 'distinct_nontrivial': len(nontriv_hashes),
